@@ -70,6 +70,8 @@ N("C01", "frame_length hex mask", (H, "return self.frame_format & 0b11111111111"
 N("C01", "source address start commuted", (H, "return self._get_address(2 + len(destination_adr))", "return self._get_address(len(destination_adr) + 2)"))
 N("C01", "append order swapped", (H, "        self._frame_data.append(byte)\n        self._ffc.update(byte)\n", "        self._ffc.update(byte)\n        self._frame_data.append(byte)\n"))
 
+S("C01", "control position computed only at length 4", "R4", (H, "if self._control_position is None and len(self._frame) > 3:", "if self._control_position is None and len(self._frame) == 4:"))
+
 # ------------------------------------------------------------------------------------------------ C02
 S("C02", "flag on empty frame sends the reader to hunt mode", "R1", (H, "            # Found new flag sequence. Two is normal ( end + start), one is allowed, and many possible if time fill.\n            pass\n",
                                                                     "            self._goto_hunt_mode()\n"))
